@@ -304,7 +304,7 @@ func init() {
 			return s
 		},
 		Run:  c08Run,
-		Rule: "iterables: []int, []string, []interface{}, [n]int, *[]int, *[n]int, arrays whose elements are all zero values, array literal, map[string]int, map[int]string, *map, hash literal, range/between/until, custom Iterator, groupBy, each at every length 0..3 (4 thorough); nil / nil slice / nil map / nil pointer to a slice, array, map, pointer or Iterator (render nothing) and int/string/struct/func (must be an error). bodies: every sequence of <=3 (4 thorough) statements over 19 items (emit literal/value/key, if+break, if+continue, emit-then-break, nested-if break, bare break/continue, return, let+emit, inner loop plain/with break/with continue/silent, fn literal, inner loops over an Iterator / a slice / nil that re-use the outer loop's variable names) in two tag layouts (one statement per tag; adjacent code tags merged) and 4 placements. Oracle: a reference interpreter over the body gives the expected text for ordered iterables; for maps every iteration starts with a sentinel+key, the observed visiting order must be a permutation (prefix when a break fires) of the entries and the reference run in that order must reproduce the output exactly; maps are additionally rendered under every forced rotation of Go's map iteration order (runtime hook). Helper blocks: break / continue (bare, inside if, inside nested if with text) inside the block of a block helper called (emitting or silently, nested 1-2 deep) in the loop body, every hit position: the helper receives the block's text up to the control statement, the call's own result is kept and the loop is broken / continued there. Nil and falsy elements: []interface{} / [3]interface{} / map with nil elements in every position (bound as nil, also when an enclosing loop or variable uses the same names), Iterators and slices yielding \"\", false, 0 and empty HTML (visited like any other element). Control-free bodies are also checked by unrolling (body rendered per element with let-bound loop variables). Non-trivial: length>=2 and body contains a control statement or inner loop.",
+		Rule: "iterables: []int, []string, []interface{}, [n]int, *[]int, *[n]int, arrays whose elements are all zero values, array literal, map[string]int, map[int]string, *map, hash literal, range/between/until, custom Iterator, groupBy, each at every length 0..3 (4 thorough); nil / nil slice / nil map / nil pointer to a slice, array, map or Iterator (render nothing), nil pointer to a struct, int or pointer and int/string/struct/func (must be an error). bodies: every sequence of <=3 (4 thorough) statements over 19 items (emit literal/value/key, if+break, if+continue, emit-then-break, nested-if break, bare break/continue, return, let+emit, inner loop plain/with break/with continue/silent, fn literal, inner loops over an Iterator / a slice / nil that re-use the outer loop's variable names) in two tag layouts (one statement per tag; adjacent code tags merged) and 4 placements. Oracle: a reference interpreter over the body gives the expected text for ordered iterables; for maps every iteration starts with a sentinel+key, the observed visiting order must be a permutation (prefix when a break fires) of the entries and the reference run in that order must reproduce the output exactly; maps are additionally rendered under every forced rotation of Go's map iteration order (runtime hook). Helper blocks: break / continue (bare, inside if, inside nested if with text) inside the block of a block helper called (emitting or silently, nested 1-2 deep) in the loop body, every hit position: the helper receives the block's text up to the control statement, the call's own result is kept and the loop is broken / continued there. Nil and falsy elements: []interface{} / [3]interface{} / map with nil elements in every position (bound as nil, also when an enclosing loop or variable uses the same names), Iterators and slices yielding \"\", false, 0 and empty HTML (visited like any other element). Control-free bodies are also checked by unrolling (body rendered per element with let-bound loop variables). Non-trivial: length>=2 and body contains a control statement or inner loop.",
 		Bound: func(th bool) string {
 			if th {
 				return "lengths 0..4, body sequences <=4"
@@ -512,6 +512,8 @@ func c08Special(t *engine.T) {
 		c.Set("nptrm", npm)
 		c.Set("nptrp", npp)
 		c.Set("nitr", nit)
+		c.Set("nstruct", (*Person)(nil)) // nil pointers to something that is not a collection are not iterable
+		c.Set("nintp", (*int)(nil))
 		c.Set("i5", 5)
 		c.Set("str", "abc")
 		c.Set("strct", Person{Name: "N"})
@@ -524,7 +526,7 @@ func c08Special(t *engine.T) {
 		c.Set("i0", 0)
 		return c
 	}
-	for _, e := range []string{"nil", "nsl", "nmap", "nptr", "nptra", "nptrm", "nptrp", "nitr", "nope"} {
+	for _, e := range []string{"nil", "nsl", "nmap", "nptr", "nptra", "nptrm", "nitr", "nope"} {
 		for _, body := range []string{`x`, `<%= v %>`, `<% break %>`} {
 			src := `A<%= for (k, v) in ` + e + ` { %>` + body + `<% } %>B`
 			e := e
@@ -543,7 +545,7 @@ func c08Special(t *engine.T) {
 			})
 		}
 	}
-	for _, e := range []string{"i5", "str", "strct", "fnc", "flt", "bl", "5", `"abc"`, "true", "1.5", "false", `""`, "blf", "estr", "ehtml", "i0", "0"} {
+	for _, e := range []string{"nptrp", "nstruct", "nintp", "i5", "str", "strct", "fnc", "flt", "bl", "5", `"abc"`, "true", "1.5", "false", `""`, "blf", "estr", "ehtml", "i0", "0"} {
 		src := `A<%= for (k, v) in ` + e + ` { %>x<% } %>B`
 		t.Case("non-iterable "+q(src), true, func() (string, *engine.Fail) {
 			out, err := Render(src, mk())
